@@ -72,6 +72,15 @@ PROPS = {
         "note": "Trusted: as C09.",
         "design_ref": "7/C11", "assumptions": E1_ASSUME + ["a crash image is a copy of the working directory taken while the instance is alive, at a state-changing file-system call (optionally after only a page-aligned prefix of a write arrived); LOCK file skipped", "the set of acknowledged batches at the image instant is exact because the single client is synchronous"],
     },
+    "C08": {
+        "engine": "dbsim", "level": "exploration", "budget": {"quick": 25, "thorough": 600},
+        "title": "Value-log separation and GC never change or lose a live value",
+        "technique": "deterministic simulation: plain and strictly-increasing versioned workloads with values around the separation threshold, 1-4 buckets, tiny value-log files and value-log GC passes (picker-driven, per file, forced rewrite) placed between writes, flushes and compactions; every read API compared with the model",
+        "rule": "case = C01/C02 workload under a value-log-heavy configuration with GC steps densified; after every step every key is read (GetCF / GetVersionedEntry at all probe versions / DB iterator + Item.ValueCopy) and compared byte-for-byte with the model; read errors on live keys are violations; distinct = distinct trace hash; non-trivial = at least one flush or reopen AND at least one GC pass that touched data",
+        "level_text": "Seeded search over workloads x GC placement x configuration with reference models; sampling is the right level for a property over all schedules.",
+        "note": "Trusted: models of C01/C02; the GC accessor applies pickLogs' eligibility rules before calling the engine's own doRunGC/rewrite.",
+        "design_ref": "7/C08", "assumptions": E1_ASSUME,
+    },
 }
 
 # Merge per-engine registries (props_<engine>.py).
